@@ -43,6 +43,13 @@ class CallGraph:
                     outs.add(rv["def"])
                 if rv and rv["k"] == "use" and rv["op"].get("k") and "fn" in rv["op"]["k"]:
                     outs.add(rv["op"]["k"]["fn"])
+                if rv and rv["k"] == "cast" and rv["op"].get("k") and "fn" in rv["op"]["k"]:
+                    # `f as fn(..) -> ..`: a function pointer is made here; whoever calls through it calls f.  The reification is
+                    # recorded as a (pseudo) call site of f in this body, so that f has this body among its callers.
+                    f = rv["op"]["k"]["fn"]
+                    outs.add(f)
+                    self.sites.setdefault(f, []).append((b, bb, {"k": "reify", "callee": {"resolved": f, "decl": f}, "args": [], "dest": s["p"],
+                                                                 "sp": s.get("sp", b.span), "t": None}))
         # closures / async blocks handed to a spawn call run as their own task
         for b in P.bodies.values():
             made = {}
